@@ -851,12 +851,12 @@ func judgeCell(o *kit.Outcome, cr *cellRun) (violated bool) {
 			viol("C20/wrong-error-after-"+name+"/"+ep.name, "call returned error %v, want the limiter's %v", res.err, wantErr)
 		}
 		if res.nonNil {
-			viol("C20/data-with-error/"+ep.name, "a value was returned together with the limiter's error")
+			viol("C20/data-with-error/"+ep.name, "a value was returned although the limiter did not grant the request")
 		}
-		if !cr.lim.ctxOK {
+		if cr.lim.calls > 0 && !cr.lim.ctxOK {
 			viol("C20/limiter-without-caller-context/"+ep.name, "Wait did not receive the caller's context")
 		}
-		if c.lim == limCancel && cr.lim.end-cr.lim.start != int64(cr.d) {
+		if c.lim == limCancel && cr.lim.calls > 0 && cr.lim.end-cr.lim.start != int64(cr.d) {
 			viol("C20/limiter-wait-not-ended-by-cancel/"+ep.name, "Wait returned %v after it started although the caller's context was cancelled after %v", time.Duration(cr.lim.end-cr.lim.start), cr.d)
 		}
 		return
@@ -974,9 +974,13 @@ func judgeCell(o *kit.Outcome, cr *cellRun) (violated bool) {
 			o.Probe("non-200-status-below-400-rejected")
 		}
 		if !ok {
-			got = strings.TrimPrefix(got, "*osmapi.")
-			if res.err == nil {
+			switch {
+			case res.err == nil:
 				got = "no-error"
+			case strings.HasPrefix(got, "*osmapi."):
+				got = strings.TrimPrefix(got, "*osmapi.")
+			case !strings.HasPrefix(got, "UnexpectedStatusCodeError{"):
+				got = "other-error" // e.g. an XML decoding error: the body was treated as an answer
 			}
 			viol(fmt.Sprintf("C20/status-%d-mapped-to-%s/%s", st, got, ep.name), "status %d came back as %T %v", st, res.err, res.err)
 		}
